@@ -308,7 +308,7 @@ Hash == DocCode(1) * 7 + nl + dig * 3 + Len(q.key.kind) * 5 + Len(q.key.s) + Tup
 \* sealed and verified states are always printed, and so are applications by a bookkeeping word; the rest is sampled
 Emit == (EmitCases /\ phase # "build"
          /\ (\/ phase \in {"sealed", "verified"}
-             \/ phase \in {"applied", "reapplied"} /\ q.key.kind = "str" /\ q.key.s \in Internal
+             \/ phase \in {"applied", "reapplied"} /\ q.key.kind = "str" /\ q.key.s \in Internal /\ dres.status = "raises"
              \/ Hash % EmitMod = EmitRes))
         => PrintT(ToJson(Case))
 ASSUME EmitCases => PrintT(ToJson([header |-> TRUE, keyorder |-> KeyOrder, recorded |-> Recorded, atoms |-> AtomSeq]))
